@@ -592,6 +592,18 @@ def _is_strategy(tier):
         case["same_object"] = draw(st.sampled_from([False, False, False, True]))
         if case["same_object"]:
             case["q_logits"] = case["logits"]
+        elif draw(st.integers(0, 5)) == 0:
+            # a proposal that all but excludes an outcome the target likes: likelihood ratios of e^50 and more (float64, one
+            # sample per call, so that each call's value is one exactly representable product)
+            case["dtype"], case["mc"], case["extreme_proposal"] = "float64", 1, True
+            for row in case["q_logits"]:
+                if kind == "bern_batch":
+                    row_i = None
+                else:
+                    row[draw(st.integers(0, len(row) - 1))] = draw(st.sampled_from([-50.0, 50.0, -60.0, 75.0]))
+            if kind == "bern_batch":
+                case["q_logits"] = [draw(st.sampled_from([-50.0, 50.0, -60.0, 75.0])) if draw(st.booleans()) or i == 0 else x
+                                    for i, x in enumerate(case["q_logits"])]
         case.update(draw(_call_extras(case["mc"], S)))
         return case
 
@@ -599,10 +611,10 @@ def _is_strategy(tier):
 
 
 @subcheck("C19", "importance_exact", _is_strategy, 500, 12000,
-          doc="ImportanceSamplingEstimator (not self-normalised), proposal Q != target P (both generated, Q dominating), optionally unnormalised P: sum over all Q-tuples of Q(tuple)*estimate and *grad == sum_b P(b) f(b) and its exact gradient w.r.t. P's parameters; gradient w.r.t. Q's parameters is 0 in every call (documented); 1 case in 6 with a batch of 15..257 (1025) elements or 15..65 (257) categories from rules; samples / function values as transposed / offset views; per-element rotation; estimator object reused",
+          doc="ImportanceSamplingEstimator (not self-normalised), proposal Q != target P (both generated, Q dominating), optionally unnormalised P: sum over all Q-tuples of Q(tuple)*estimate and *grad == sum_b P(b) f(b) and its exact gradient w.r.t. P's parameters; gradient w.r.t. Q's parameters is 0 in every call (documented); 1 case in 6 with a batch of 15..257 (1025) elements or 15..65 (257) categories from rules; samples / function values as transposed / offset views; per-element rotation; estimator object reused; 1 case in 8 (float64, one sample per call) with a proposal logit of +-50..75: likelihood ratios beyond e^44",
           required_classes=["proposal_differs", "mc_2", "is_log", "unnormalised", "target_object_is_proposal",
                             "big_B", "big_S", "per_element_rotation", "samples_transposed", "samples_offset",
-                            "f_values_transposed", "f_values_offset", "estimator_reused"])
+                            "f_values_transposed", "f_values_offset", "estimator_reused", "likelihood_ratio_above_e44"])
 def _is_check(case):
     import torch
     from pydrobert.torch.estimators import ImportanceSamplingEstimator
@@ -649,6 +661,9 @@ def _is_check(case):
         P = ex.point_probs(kind, size, case["logits"][b])
         Q = ex.point_probs(kind, size, case["q_logits"][b])
         ratio = max(ratio, max(p / q for p, q in zip(P, Q)))
+    if case.get("extreme_proposal"):
+        # one sample per call: Q(b) * (P(b) / Q(b) * f(b)) carries a relative error only, however large the ratio
+        ratio = 1.0
     scale = (1.0 + max(abs(x) for r in tab_lin for x in r)) * ratio * math.exp(max(k, 0.0))
     _check_against_exact(case, "ImportanceSamplingEstimator", Ev, Eg[0], Eg[1], tab_lin, scale, const=math.exp(k))
     classes = ["kind_" + kind, "mc_%d" % mc, "is_log" if is_log else "linear", case.get("dtype", "float32")]
@@ -658,6 +673,8 @@ def _is_check(case):
         classes.append("unnormalised")
     if same:
         classes.append("target_object_is_proposal")
+    if case.get("extreme_proposal"):
+        classes.append("likelihood_ratio_above_e44")
     _extra_classes(case, classes, B if case.get("big") == "B" else _nspace(kind, size))
     return Info(nontrivial=_nonconstant(case["f"]) and _nonuniform(case) and (same or case["logits"] != case["q_logits"]), classes=classes)
 
